@@ -55,6 +55,15 @@ Theorem C09_assign_byref_refuted :
 Proof. exact P_assign_byref_refuted. Qed.
 Print Assumptions C09_assign_byref_refuted.
 
+(* special members and conversions of LoopSIMD (copy / move construction and assignment, self-assignment, converting constructor between
+   alignments, swap, assignment of the own lane k) *)
+Theorem C09_special_members : forall (X : Type) (d : X) (v w : list X) (k l : nat),
+  fst (c09_copy v) = v /\ snd (c09_copy v) = v /\ c09_lanes (fst (c09_copy v)) = c09_lanes v /\
+  fst (c09_swap v w) = w /\ snd (c09_swap v w) = v /\
+  (l < c09_lanes v -> c09_lane d l (c09_bcast (c09_lanes v) (c09_lane d k v)) = c09_lane d k v).
+Proof. exact P_special_members. Qed.
+Print Assumptions C09_special_members.
+
 Theorem C09_cond_lanewise : forall (X : Type) (S : nat) (d : X) (m : list bool) (a b : list X),
   length m = S -> length a = S -> length b = S ->
   length (c09_cond m a b) = S /\
